@@ -20,9 +20,9 @@ PKGS = ["./cmd/instance"]
 
 DEV_PAR = {"AliasDefaults": {"race"}, "LazyUnsync": {"race", "history"}, "NoStepMutex": {"race", "initonce"},
            "SharedMarks": {"race", "history"}, "SharedInProgress": {"history"},
-           "SharedError": {"race", "history"}}
+           "SharedError": {"race", "history"}, "HideRestore": {"race", "history", "input"}}
 # kinds whose defects are steady-state (scratch state that must be per call): every goroutine repeats its calls
-STEADY = {"chain", "compat2", "disabled"}
+STEADY = {"chain", "compat2", "disabled", "oneof"}
 NS = [2, 4, 8, 16]
 
 
@@ -52,8 +52,8 @@ def make_cases(ctx, scheds, thorough):
     rotating with the seed."""
     cases, seen = [], set()
     idx = ctx.seed
-    for kind, origin, progs, targeted in scheds:
-        key = (kind, origin, prog_key(progs))
+    for kind, origin, progs, targeted, shared in scheds:
+        key = (kind, origin, shared, prog_key(progs))
         if key in seen:
             continue
         seen.add(key)
@@ -73,7 +73,7 @@ def make_cases(ctx, scheds, thorough):
         glob = origin == "global"
         for ck, n in plan:
             steady = kind in STEADY
-            cases.append(dict(mode="race", kind=kind, ckind=ck, origin=origin, progs=progs, n=n, seed=ctx.seed,
+            cases.append(dict(mode="race", kind=kind, ckind=ck, origin=origin, shared=shared, progs=progs, n=n, seed=ctx.seed,
                               iters=((1000 if thorough else 150) if steady else 1),
                               trials=(3 if glob else ((6 if thorough else 3) if steady else (40 if thorough else 25))),
                               procs=((6 if thorough else 4) if glob else (2 if thorough else 1)),
@@ -119,7 +119,8 @@ def run(ctx):
     wit = ic.deviations(ctx, "instance_dev_par.cfg", DEV_PAR,
                         must_violate={"SharedMarks": ("instance_devv_par_iso.cfg", "Isolated"),
                                       "SharedInProgress": ("instance_devv_par_iso.cfg", "Isolated"),
-                                      "SharedError": ("instance_devv_par_iso.cfg", "Isolated")})
+                                      "SharedError": ("instance_devv_par_iso.cfg", "Isolated"),
+                                      "HideRestore": ("instance_devv_par_iso.cfg", "Isolated")})
     tm.join()
     th.join()
     for d in (main, build):
@@ -137,21 +138,22 @@ def run(ctx):
     for dev in sorted(wit):
         taken = {}
         for w in wit[dev]:
-            if w["what"] in ("race", "history", "initonce"):
+            if w["what"] in ("race", "history", "initonce", "input"):
                 p = progs_of_witness(w)
                 if len(p) >= 2:
-                    k = (w["kind"], w["origin"])
+                    k = (w["kind"], w["origin"], bool(w.get("shared")))
                     keys = taken.setdefault(k, set())
                     pk = prog_key(p)
                     if pk in keys or len(keys) >= cap:
                         continue
                     keys.add(pk)
-                    scheds.append((w["kind"], w["origin"], p, True))
-    ntarget = len({(k, o, prog_key(p)) for k, o, p, _ in scheds})
+                    scheds.append((w["kind"], w["origin"], p, True, bool(w.get("shared"))))
+    ntarget = len({(k, o, sh, prog_key(p)) for k, o, p, _, sh in scheds})
     for rec in recs:
         sched = rec["sched"]
         sched = list(sched.values()) if isinstance(sched, dict) else sched
-        scheds.append((rec["kind"], rec["origin"], [[ic.call_of(e) for e in seq] for seq in sched], False))
+        scheds.append((rec["kind"], rec["origin"], [[ic.call_of(e) for e in seq] for seq in sched], False,
+                       bool(rec.get("shared"))))
     cases = make_cases(ctx, scheds, thorough)
     # the package-level meta-schemas: describing and rebuilding concurrently (beyond the model: detector only)
     cases += [dict(mode="race", kind="meta", ckind="meta", origin="fresh", progs=[[dict(op="describe_rebuild", tok="-", m=None, exp=[])]],
@@ -159,7 +161,7 @@ def run(ctx):
     # the driver hands contiguous shards to its worker processes: spread the long (steady-state) cases
     random.Random(ctx.seed).shuffle(cases)
     ctx.log("schedules: %d distinct (%d from deviation witnesses) -> %d cases" % (
-        len({(k, o, prog_key(p)) for k, o, p, _ in scheds}), ntarget, len(cases)))
+        len({(k, o, sh, prog_key(p)) for k, o, p, _, sh in scheds}), ntarget, len(cases)))
 
     ic.consume(ctx, [dict(mode="bind")], ic.run_driver(ctx, drv, [dict(mode="bind")], "bind", jobs=1, env={"GORACE": "atexit_sleep_ms=0"}), need_race=True)
     results = ic.run_driver(ctx, drv, cases, "race", jobs=min(14, common.NCPU), timeout=3000, env={"GOMAXPROCS": "4", "GORACE": "atexit_sleep_ms=0"})
